@@ -281,6 +281,23 @@ class CallMixin:
                 return self.opaque("int", INT)
             if nm == "defaultdict":
                 return EmptyV("dict")
+            if nm == "enumerate" and len(n.args) == 1:
+                v = self.ev(n.args[0], st, old)
+                if "iter" in self.m.hooks and isinstance(v, T):
+                    v = self.m.hooks["iter"](self, v, st) or v
+                if isinstance(v, tuple) and v and v[0] == "enum":
+                    return v
+                if isinstance(v, T) and isinstance(v.sort, tuple) and v.sort[0] == "Seq":
+                    return ("enum", v)
+            if nm == "zip" and len(n.args) == 2:
+                vs = []
+                for a in n.args:
+                    v = self.ev(a, st, old)
+                    if "iter" in self.m.hooks and isinstance(v, T):
+                        v = self.m.hooks["iter"](self, v, st) or v
+                    vs.append(v)
+                if all(isinstance(v, T) and isinstance(v.sort, tuple) and v.sort[0] == "Seq" for v in vs):
+                    return ("zip", vs[0], vs[1])
             if nm in ("set", "list", "tuple", "dict", "frozenset") and len(n.args) <= 1:
                 if not n.args:
                     return self.empty_container(nm, n)
@@ -441,8 +458,12 @@ class CallMixin:
                     a0 = ast.ListComp(elt=a0.elt, generators=a0.generators)
                     ast.copy_location(a0, n.args[0])
                 x = self.ev(a0, st, old)
-                if isinstance(x, T) and x.sort == s and self.store_back(f.value, T(s, f"(seq.++ {recv.s} {x.s})"), st):
-                    return T(NONE, "none")
+                if isinstance(x, T) and x.sort == s:
+                    r = self.opaque("ext", s)
+                    st.pc.append(f"(= {r.s} (seq.++ {recv.s} {x.s}))")
+                    st.pc.append(f"(forall ((|q_e| {sort_smt(s[1])})) (! (= (seq.contains {r.s} (seq.unit |q_e|)) (or (seq.contains {recv.s} (seq.unit |q_e|)) (seq.contains {x.s} (seq.unit |q_e|)))) :pattern ((seq.contains {r.s} (seq.unit |q_e|)))))")
+                    if self.store_back(f.value, r, st):
+                        return T(NONE, "none")
             if at == "copy":
                 return recv
         if s == STR:
